@@ -217,4 +217,478 @@ theorem rneShift_gap (Q j s ρ : Nat) (hs : j + 1 ≤ s) (hρ0 : 0 < ρ) (hρ : 
     have h2 : ¬ (a * 2^j + ρ = 2^u * 2^j) := by omega
     simp [ha, h1, h2]
 
+/-! ## rescaling -/
+
+theorem fe64_scale (m k : Nat) (e : Int) (hm : 0 < m) : fe64 (m * 2^k) (e - k) = fe64 m e := by
+  unfold fe64; rw [bitLen_mul_pow m k hm]
+  simp only [Int.natCast_add]
+  split <;> split <;> omega
+
+theorem qOf_scale (m k : Nat) (e fe : Int) : qOf (m * 2^k) (e - k) fe = qOf m e fe := by
+  unfold qOf
+  by_cases h1 : fe ≤ e - k
+  · have h2 : fe ≤ e := by omega
+    rw [if_pos h1, if_pos h2]
+    have : (e - fe).toNat = k + (e - k - fe).toNat := by omega
+    rw [this, Nat.pow_add, Nat.mul_assoc]
+  · rw [if_neg h1]
+    by_cases h2 : fe ≤ e
+    · rw [if_pos h2]
+      have hs : (fe - (e - k)).toNat ≤ k := by omega
+      rw [rneShift_exact _ _ _ hs]
+      congr 2; omega
+    · rw [if_neg h2]
+      have : (fe - (e - k)).toNat = (fe - e).toNat + k := by omega
+      rw [this, rneShift_scale _ _ _ (by omega)]
+
+/-- **rescaling**: `m·2^k · 2^(e-k)` rounds like `m · 2^e` -/
+theorem roundMag_scale (m k : Nat) (e : Int) (hm : 0 < m) :
+    roundMag .f64 (m * 2^k) (e - k) = roundMag .f64 m e := by
+  rw [roundMag_eq, roundMag_eq, fe64_scale m k e hm, qOf_scale]
+
+/-! ## monotonicity at a fixed exponent -/
+
+theorem qOf_mono (m m' : Nat) (e fe : Int) (h : m ≤ m') : qOf m e fe ≤ qOf m' e fe := by
+  unfold qOf; split
+  · exact Nat.mul_le_mul_right _ h
+  · exact rneShift_mono _ _ _ h
+
+theorem qOf_le (m : Nat) (e : Int) : qOf m e (fe64 m e) ≤ 9007199254740992 := by
+  have hL := bitLen_lt_pow m
+  have c53 : (2:Nat)^53 = 9007199254740992 := by decide
+  have hfe : e + (bitLen m : Int) - 53 ≤ fe64 m e := by unfold fe64; split <;> omega
+  unfold qOf; split
+  · rename_i hle
+    obtain ⟨a, ha⟩ : ∃ a : Nat, bitLen m + (e - fe64 m e).toNat + a = 53 :=
+      ⟨53 - (bitLen m + (e - fe64 m e).toNat), by omega⟩
+    have h1 : m * 2^(e - fe64 m e).toNat < 2^(bitLen m) * 2^(e - fe64 m e).toNat :=
+      (Nat.mul_lt_mul_right (Nat.two_pow_pos _)).2 hL
+    have h2 : 2^(bitLen m) * 2^(e - fe64 m e).toNat * 2^a = 2^53 := by
+      rw [← Nat.pow_add, ← Nat.pow_add, ha]
+    have h3 := Nat.two_pow_pos a
+    have : 2^(bitLen m) * 2^(e - fe64 m e).toNat ≤ 2^53 := by
+      rw [← h2]; exact Nat.le_mul_of_pos_right _ h3
+    omega
+  · rename_i hgt
+    obtain ⟨a, ha⟩ : ∃ a : Nat, bitLen m + a = 53 + (fe64 m e - e).toNat :=
+      ⟨53 + (fe64 m e - e).toNat - bitLen m, by omega⟩
+    have h2 : 2^(bitLen m) * 2^a = 2^53 * 2^(fe64 m e - e).toNat := by
+      rw [← Nat.pow_add, ← Nat.pow_add, ha]
+    have h3 := Nat.two_pow_pos a
+    have h4 : m < 2^53 * 2^(fe64 m e - e).toNat := by
+      have : 2^(bitLen m) ≤ 2^(bitLen m) * 2^a := Nat.le_mul_of_pos_right _ h3
+      omega
+    have h5 : m / 2^(fe64 m e - e).toNat < 2^53 := (Nat.div_lt_iff_lt_mul (Nat.two_pow_pos _)).2 h4
+    have := rneShift_le m (fe64 m e - e).toNat
+    omega
+
+theorem qOf_ge (m : Nat) (e : Int) (hm : 0 < m) (h : -1074 < fe64 m e) :
+    4503599627370496 ≤ qOf m e (fe64 m e) := by
+  obtain ⟨hL1, _, hL3⟩ := bitLen_bounds hm
+  have c52 : (2:Nat)^52 = 4503599627370496 := by decide
+  have hfe : fe64 m e = e + (bitLen m : Int) - 53 := by
+    unfold fe64 at h ⊢; split <;> rename_i hc
+    · rw [if_pos hc] at h; omega
+    · rfl
+  unfold qOf; split
+  · rename_i hle
+    have ha : bitLen m - 1 + (e - fe64 m e).toNat = 52 := by omega
+    have h1 : 2^(bitLen m - 1) * 2^(e - fe64 m e).toNat ≤ m * 2^(e - fe64 m e).toNat :=
+      Nat.mul_le_mul_right _ hL1
+    rw [← Nat.pow_add, ha] at h1
+    omega
+  · rename_i hgt
+    have ha : 52 + (fe64 m e - e).toNat = bitLen m - 1 := by omega
+    have h1 : 2^52 * 2^(fe64 m e - e).toNat ≤ m := by rw [← Nat.pow_add, ha]; exact hL1
+    have h2 : 2^52 ≤ m / 2^(fe64 m e - e).toNat := (Nat.le_div_iff_mul_le (Nat.two_pow_pos _)).2 h1
+    have := rneShift_ge m (fe64 m e - e).toNat
+    omega
+
+/-- **monotone rounding** at a common exponent -/
+theorem roundMag_mono_same (m m' : Nat) (e : Int) (hm : 0 < m) (h : m ≤ m') :
+    roundMag .f64 m e ≤ roundMag .f64 m' e := by
+  rw [roundMag_eq, roundMag_eq]
+  have hb := bitLen_mono h
+  have hfe : fe64 m e ≤ fe64 m' e := by unfold fe64; split <;> split <;> omega
+  have hg := fe64_ge m e
+  apply pk_mono
+  rcases Int.lt_or_eq_of_le hfe with hlt | heq
+  · have h1 := qOf_le m e
+    have h2 := qOf_ge m' e (by omega) (by omega)
+    have : (fe64 m' e + 1074).toNat ≥ (fe64 m e + 1074).toNat + 1 := by omega
+    omega
+  · rw [← heq]
+    have := qOf_mono m m' e (fe64 m e) h
+    omega
+
+/-! ## no rounding boundary strictly inside a fine gap -/
+
+theorem bitLen_gap (Q j ρ : Nat) (hQ : 0 < Q) (hρ : ρ < 2^j) : bitLen (Q * 2^j + ρ) = bitLen Q + j := by
+  obtain ⟨h1, h2, h3⟩ := bitLen_bounds hQ
+  have e : bitLen Q + j = (bitLen Q - 1 + j) + 1 := by omega
+  rw [e]
+  apply bitLen_eq
+  · rw [Nat.pow_add]
+    have := Nat.mul_le_mul_right (2^j) h1
+    omega
+  · have e' : bitLen Q - 1 + j + 1 = bitLen Q + j := by omega
+    rw [e', Nat.pow_add]
+    have : (Q + 1) * 2^j ≤ 2^bitLen Q * 2^j := Nat.mul_le_mul_right _ h2
+    have : (Q + 1) * 2^j = Q * 2^j + 2^j := by ring
+    omega
+
+/-- the rounding of any point strictly inside the gap `(Q·2^j, (Q+1)·2^j)` at exponent `E`, when `Q` has at
+    least 54 bits, in a form that does not mention the point -/
+theorem roundMag_gap_aux (Q j ρ : Nat) (E : Int) (hQ : 54 ≤ bitLen Q) (hρ0 : 0 < ρ) (hρ : ρ < 2^j) :
+    roundMag .f64 (Q * 2^j + ρ) E =
+      pk (fe64 (Q * 2^j) E)
+        (Q / 2^((fe64 (Q * 2^j) E - E).toNat - j) +
+          (if 2^((fe64 (Q * 2^j) E - E).toNat - j - 1) ≤ Q % 2^((fe64 (Q * 2^j) E - E).toNat - j) then 1 else 0)) := by
+  have hQ0 : 0 < Q := by
+    rcases Nat.eq_zero_or_pos Q with rfl | h
+    · simp [bitLen] at hQ
+    · exact h
+  have hb : bitLen (Q * 2^j + ρ) = bitLen (Q * 2^j) := by
+    rw [bitLen_gap Q j ρ hQ0 hρ, bitLen_mul_pow Q j hQ0]
+  have hfe : fe64 (Q * 2^j + ρ) E = fe64 (Q * 2^j) E := by unfold fe64; rw [hb]
+  have hb2 := bitLen_mul_pow Q j hQ0
+  have hlow : E + j + 1 ≤ fe64 (Q * 2^j) E := by
+    unfold fe64; rw [hb2]; simp only [Int.natCast_add]; split <;> omega
+  rw [roundMag_eq, hfe]
+  congr 1
+  unfold qOf
+  rw [if_neg (by omega)]
+  exact rneShift_gap Q j _ ρ (by omega) hρ0 hρ
+
+theorem roundMag_gap (Q j M M' : Nat) (E : Int) (hQ : 54 ≤ bitLen Q)
+    (h1 : Q * 2^j < M) (h2 : M < (Q + 1) * 2^j) (h1' : Q * 2^j < M') (h2' : M' < (Q + 1) * 2^j) :
+    roundMag .f64 M E = roundMag .f64 M' E := by
+  have e : (Q + 1) * 2^j = Q * 2^j + 2^j := by ring
+  have eM : M = Q * 2^j + (M - Q * 2^j) := by omega
+  have eM' : M' = Q * 2^j + (M' - Q * 2^j) := by omega
+  rw [eM, eM', roundMag_gap_aux Q j _ E hQ (by omega) (by omega),
+    roundMag_gap_aux Q j _ E hQ (by omega) (by omega)]
+
+/-! ## rounding a positive rational `T/d · 2^e` (truncated quotient + sticky bit) -/
+
+/-- what `roundPack` computes from the truncated quotient `T / d` and the sticky flag `T % d ≠ 0` -/
+def rmag (T d : Nat) (e : Int) : Nat :=
+  if T % d = 0 then roundMag .f64 (T / d) e else roundMag .f64 (2 * (T / d) + 1) (e - 1)
+
+/-- the representation is admissible: the sticky bit is only used on a quotient of at least 54 bits -/
+def Ok (T d : Nat) : Prop := 0 < d ∧ 0 < T ∧ (T % d = 0 ∨ 54 ≤ bitLen (T / d))
+
+/-- representative at one more bit -/
+def rep (T d : Nat) : Nat := 2 * (T / d) + (if T % d = 0 then 0 else 1)
+
+theorem rep_pos (T d : Nat) (hd : 0 < d) (hT : 0 < T) : 0 < rep T d := by
+  unfold rep
+  have := Nat.div_add_mod T d
+  split
+  · rename_i h
+    rw [h] at this
+    have : 0 < T / d := by
+      rcases Nat.eq_zero_or_pos (T / d) with h0 | h0
+      · rw [h0] at this; omega
+      · exact h0
+    omega
+  · omega
+
+theorem rmag_eq_rep (T d : Nat) (e : Int) (hd : 0 < d) (hT : 0 < T) :
+    rmag T d e = roundMag .f64 (rep T d) (e - 1) := by
+  have hp := rep_pos T d hd hT
+  unfold rmag rep at *
+  split
+  · rename_i h
+    rw [if_pos h] at hp
+    have := roundMag_scale (T / d) 1 e (by omega)
+    rw [← this]
+    congr 1
+    omega
+  · rfl
+
+theorem rep_mono (T T' d : Nat) (hd : 0 < d) (h : T ≤ T') : rep T d ≤ rep T' d := by
+  unfold rep
+  have hq : T / d ≤ T' / d := Nat.div_le_div_right h
+  have e1 := Nat.div_add_mod T d
+  have e2 := Nat.div_add_mod T' d
+  by_cases hq' : T / d = T' / d
+  · rw [hq'] at e1 ⊢
+    split <;> split <;> omega
+  · split <;> split <;> omega
+
+theorem rmag_mono_same (T T' d : Nat) (e : Int) (hd : 0 < d) (hT : 0 < T) (h : T ≤ T') :
+    rmag T d e ≤ rmag T' d e := by
+  rw [rmag_eq_rep T d e hd hT, rmag_eq_rep T' d e hd (by omega)]
+  exact roundMag_mono_same _ _ _ (rep_pos T d hd hT) (rep_mono T T' d hd h)
+
+theorem rmag_cancel (T d c : Nat) (e : Int) (hc : 0 < c) : rmag (T * c) (d * c) e = rmag T d e := by
+  unfold rmag
+  rw [Nat.mul_div_mul_right _ _ hc, Nat.mul_mod_mul_right]
+  have : (T % d * c = 0) = (T % d = 0) := by
+    apply propext
+    constructor
+    · intro h
+      rcases Nat.mul_eq_zero.1 h with h | h
+      · exact h
+      · omega
+    · intro h; rw [h]; simp
+  simp only [this]
+
+/-- refining the scaling of the numerator does not change the rounding -/
+theorem rmag_refine (T d j : Nat) (e : Int) (h : Ok T d) : rmag (T * 2^j) d (e - j) = rmag T d e := by
+  obtain ⟨hd, hT, hq⟩ := h
+  have hj := Nat.two_pow_pos j
+  rw [rmag_eq_rep _ d _ hd (Nat.mul_pos hT hj), rmag_eq_rep T d e hd hT]
+  have hs := roundMag_scale (rep T d) j (e - 1) (rep_pos T d hd hT)
+  have he : e - 1 - (j : Int) = e - j - 1 := by omega
+  rw [he] at hs
+  rw [← hs]
+  have e1 := Nat.div_add_mod T d
+  have hr := Nat.mod_lt T hd
+  by_cases h0 : T % d = 0
+  · -- exact quotient
+    rw [h0] at e1
+    have hT' : T * 2^j = d * (T / d * 2^j) := by
+      calc T * 2^j = (d * (T / d)) * 2^j := by rw [show d * (T / d) = T by omega]
+        _ = d * (T / d * 2^j) := by ring
+    have hm : T * 2^j % d = 0 := by rw [hT']; exact Nat.mul_mod_right _ _
+    have hdv : T * 2^j / d = T / d * 2^j := by rw [hT']; exact Nat.mul_div_cancel_left _ hd
+    unfold rep
+    rw [if_pos hm, if_pos h0, hdv]
+    congr 1; ring
+  · -- inexact quotient: both representatives lie in the gap above `Q = T / d`
+    have hQ : 54 ≤ bitLen (T / d) := by
+      rcases hq with hq | hq
+      · exact absurd hq h0
+      · exact hq
+    have e2 := Nat.div_add_mod (T * 2^j) d
+    have hr2 := Nat.mod_lt (T * 2^j) hd
+    -- the refined quotient is `Q·2^j + ρ'` with `ρ' < 2^j`
+    have hlo : T / d * 2^j ≤ T * 2^j / d := by
+      apply (Nat.le_div_iff_mul_le hd).2
+      have : T / d * d ≤ T := Nat.div_mul_le_self _ _
+      calc T / d * 2^j * d = (T / d * d) * 2^j := by ring
+        _ ≤ T * 2^j := Nat.mul_le_mul_right _ this
+    have hhi : T * 2^j / d < (T / d + 1) * 2^j := by
+      apply (Nat.div_lt_iff_lt_mul hd).2
+      have : T < (T / d + 1) * d := by
+        have : (T / d + 1) * d = d * (T / d) + d := by ring
+        omega
+      calc T * 2^j < ((T / d + 1) * d) * 2^j := (Nat.mul_lt_mul_right hj).2 this
+        _ = (T / d + 1) * 2^j * d := by ring
+    -- if the refined remainder vanishes, the refined quotient is strictly above `Q·2^j`
+    have hstrict : T * 2^j % d = 0 → T / d * 2^j < T * 2^j / d := by
+      intro hz
+      rw [hz] at e2
+      rcases Nat.lt_or_ge (T / d * 2^j) (T * 2^j / d) with hlt | hge
+      · exact hlt
+      · exfalso
+        have heq : T * 2^j / d = T / d * 2^j := by omega
+        rw [heq] at e2
+        have : d * (T / d * 2^j) + (T % d) * 2^j = T * 2^j := by
+          calc d * (T / d * 2^j) + (T % d) * 2^j = (d * (T / d) + T % d) * 2^j := by ring
+            _ = T * 2^j := by rw [e1]
+        have : 0 < T % d * 2^j := Nat.mul_pos (by omega) hj
+        omega
+    have ep : (2:Nat)^(j+1) = 2 * 2^j := by rw [Nat.pow_succ]; omega
+    have ea : T / d * (2 * 2^j) = 2 * (T / d * 2^j) := by ring
+    have eb : (T / d + 1) * (2 * 2^j) = 2 * ((T / d + 1) * 2^j) := by ring
+    have ec : (2 * (T / d) + 1) * 2^j = 2 * (T / d * 2^j) + 2^j := by ring
+    have ed : (T / d + 1) * 2^j = T / d * 2^j + 2^j := by ring
+    apply roundMag_gap (T / d) (j + 1) _ _ _ hQ
+    · unfold rep; rw [ep, ea]
+      split
+      · rename_i hz; have := hstrict hz; omega
+      · omega
+    · unfold rep; rw [ep, eb]
+      split <;> omega
+    · unfold rep; rw [if_neg h0, ep, ea, ec]
+      omega
+    · unfold rep; rw [if_neg h0, ep, eb, ec, ed]
+      omega
+
+theorem Ok_refine (T d j : Nat) (h : Ok T d) : Ok (T * 2^j) d := by
+  obtain ⟨hd, hT, hq⟩ := h
+  have hj := Nat.two_pow_pos j
+  refine ⟨hd, Nat.mul_pos hT hj, ?_⟩
+  rcases hq with hq | hq
+  · left
+    have e1 := Nat.div_add_mod T d
+    rw [hq] at e1
+    have hT' : T * 2^j = d * (T / d * 2^j) := by
+      calc T * 2^j = (d * (T / d)) * 2^j := by rw [show d * (T / d) = T by omega]
+        _ = d * (T / d * 2^j) := by ring
+    rw [hT']; exact Nat.mul_mod_right _ _
+  · right
+    have h1 : T / d ≤ T * 2^j / d := Nat.div_le_div_right (Nat.le_mul_of_pos_right _ hj)
+    have := bitLen_mono h1
+    omega
+
+/-- **monotone rounding of positive rationals**: `T/d·2^e ≤ T'/d'·2^e'` (cross-multiplied at a common
+    exponent `E0`) implies the same order of the rounded magnitudes -/
+theorem rmag_mono (T d T' d' : Nat) (e e' E0 : Int) (h : Ok T d) (h' : Ok T' d') (hE : E0 ≤ e) (hE' : E0 ≤ e')
+    (hle : T * 2^(e - E0).toNat * d' ≤ T' * 2^(e' - E0).toNat * d) : rmag T d e ≤ rmag T' d' e' := by
+  have r1 := rmag_refine T d (e - E0).toNat e h
+  have r2 := rmag_refine T' d' (e' - E0).toNat e' h'
+  have x1 : e - ((e - E0).toNat : Int) = E0 := by omega
+  have x2 : e' - ((e' - E0).toNat : Int) = E0 := by omega
+  rw [x1] at r1
+  rw [x2] at r2
+  rw [← r1, ← r2, ← rmag_cancel _ d d' E0 h'.1, ← rmag_cancel _ d' d E0 h.1, Nat.mul_comm d' d]
+  apply rmag_mono_same _ _ _ _ (Nat.mul_pos h.1 h'.1) _ hle
+  exact Nat.mul_pos (Nat.mul_pos h.2.1 (Nat.two_pow_pos _)) h'.1
+
+theorem rmag_le_inf (T d : Nat) (e : Int) : rmag T d e ≤ 9218868437227405312 := by
+  unfold rmag; split <;> exact roundMag_le_inf _ _
+
+/-! # Part 2: rational values -/
+
+/-- `2^e` as a rational -/
+def pow2 (e : Int) : ℚ := (2:ℚ)^e
+
+theorem pow2_pos (e : Int) : 0 < pow2 e := zpow_pos (by norm_num) e
+theorem pow2_ne (e : Int) : pow2 e ≠ 0 := ne_of_gt (pow2_pos e)
+theorem pow2_add (a b : Int) : pow2 (a + b) = pow2 a * pow2 b := zpow_add₀ (by norm_num) a b
+theorem pow2_nat (n : Nat) : pow2 (n : Int) = ((2^n : Nat) : ℚ) := by
+  simp [pow2, zpow_natCast]
+theorem pow2_zero : pow2 0 = 1 := by simp [pow2]
+theorem pow2_sub (a b : Int) : pow2 (a - b) = pow2 a / pow2 b := zpow_sub₀ (by norm_num) a b
+theorem pow2_split (e E0 : Int) (h : E0 ≤ e) : pow2 e = ((2^(e - E0).toNat : Nat) : ℚ) * pow2 E0 := by
+  rw [← pow2_nat, ← pow2_add]; congr 1; omega
+
+/-- rounding is monotone in the rational value `T/d·2^e` -/
+theorem rmag_mono_q (T d T' d' : Nat) (e e' : Int) (h : Ok T d) (h' : Ok T' d')
+    (hv : (T : ℚ) / d * pow2 e ≤ (T' : ℚ) / d' * pow2 e') : rmag T d e ≤ rmag T' d' e' := by
+  obtain ⟨E0, hE, hE'⟩ : ∃ E0 : Int, E0 ≤ e ∧ E0 ≤ e' := ⟨min e e', min_le_left _ _, min_le_right _ _⟩
+  apply rmag_mono T d T' d' e e' E0 h h' hE hE'
+  rw [pow2_split e E0 hE, pow2_split e' E0 hE'] at hv
+  have hp := pow2_pos E0
+  have hd : (0:ℚ) < d := by exact_mod_cast h.1
+  have hd' : (0:ℚ) < d' := by exact_mod_cast h'.1
+  have h1 : (T : ℚ) / d * ((2^(e - E0).toNat : Nat) : ℚ) ≤ (T' : ℚ) / d' * ((2^(e' - E0).toNat : Nat) : ℚ) := by
+    have := hv
+    rw [← mul_assoc, ← mul_assoc] at this
+    exact le_of_mul_le_mul_right this hp
+  have h2 : (T : ℚ) * ((2^(e - E0).toNat : Nat) : ℚ) * d' ≤ (T' : ℚ) * ((2^(e' - E0).toNat : Nat) : ℚ) * d := by
+    have e1 : (T : ℚ) / d * ((2^(e - E0).toNat : Nat) : ℚ) = ((T : ℚ) * ((2^(e - E0).toNat : Nat) : ℚ)) / d := by ring
+    have e2 : (T' : ℚ) / d' * ((2^(e' - E0).toNat : Nat) : ℚ) = ((T' : ℚ) * ((2^(e' - E0).toNat : Nat) : ℚ)) / d' := by
+      ring
+    rw [e1, e2, div_le_div_iff₀ hd hd'] at h1
+    exact h1
+  exact_mod_cast h2
+
+/-- the `toOrd` key of a non-NaN pattern: magnitude bits with the sign -/
+def key (b : Nat) : Int :=
+  if b ≥ 9223372036854775808 then -((b - 9223372036854775808 : Nat) : Int) else (b : Int)
+
+/-- `b` is the correctly rounded binary64 image of the rational `v` -/
+def Rnd (v : ℚ) (b : Nat) : Prop :=
+  (v = 0 ∧ (b = 0 ∨ b = 9223372036854775808)) ∨
+  (0 < v ∧ ∃ T d e, Ok T d ∧ v = (T : ℚ) / d * pow2 e ∧ b = rmag T d e) ∨
+  (v < 0 ∧ ∃ T d e, Ok T d ∧ -v = (T : ℚ) / d * pow2 e ∧ b = 9223372036854775808 + rmag T d e)
+
+theorem Rnd_lt (v : ℚ) (b : Nat) (h : Rnd v b) : b % 9223372036854775808 ≤ 9218868437227405312 ∧
+    b < 18446744073709551616 := by
+  rcases h with ⟨_, rfl | rfl⟩ | ⟨_, T, d, e, _, _, rfl⟩ | ⟨_, T, d, e, _, _, rfl⟩
+  · omega
+  · omega
+  · have := rmag_le_inf T d e; omega
+  · have := rmag_le_inf T d e; omega
+
+theorem Rnd_key_sign (v : ℚ) (b : Nat) (h : Rnd v b) : (0 ≤ v → 0 ≤ key b) ∧ (v ≤ 0 → key b ≤ 0) := by
+  unfold key
+  rcases h with ⟨h0, rfl | rfl⟩ | ⟨h0, T, d, e, _, _, rfl⟩ | ⟨h0, T, d, e, _, _, rfl⟩
+  · simp
+  · simp
+  · have := rmag_le_inf T d e
+    refine ⟨fun _ => by split <;> omega, fun h => absurd h0 (not_lt.2 h)⟩
+  · have := rmag_le_inf T d e
+    refine ⟨fun h => absurd h0 (not_lt.2 h), fun _ => by split <;> omega⟩
+
+/-- **monotone rounding** -/
+theorem Rnd_mono (v v' : ℚ) (b b' : Nat) (h : Rnd v b) (h' : Rnd v' b') (hv : v ≤ v') : key b ≤ key b' := by
+  rcases lt_trichotomy v 0 with hneg | hz | hpos
+  · rcases lt_or_ge v' 0 with hneg' | hnn'
+    · -- both negative
+      rcases h with ⟨h0, _⟩ | ⟨h0, _⟩ | ⟨_, T, d, e, hOk, hval, rfl⟩
+      · exact absurd h0 (ne_of_lt hneg)
+      · exact absurd h0 (not_lt.2 (le_of_lt hneg))
+      rcases h' with ⟨h0, _⟩ | ⟨h0, _⟩ | ⟨_, T', d', e', hOk', hval', rfl⟩
+      · exact absurd h0 (ne_of_lt hneg')
+      · exact absurd h0 (not_lt.2 (le_of_lt hneg'))
+      have := rmag_mono_q T' d' T d e' e hOk' hOk (by rw [← hval, ← hval']; linarith)
+      have := rmag_le_inf T d e
+      have := rmag_le_inf T' d' e'
+      unfold key
+      split <;> split <;> omega
+    · have := (Rnd_key_sign v b h).2 (le_of_lt hneg)
+      have := (Rnd_key_sign v' b' h').1 hnn'
+      omega
+  · have := (Rnd_key_sign v b h).2 (le_of_eq hz)
+    have := (Rnd_key_sign v' b' h').1 (by linarith)
+    omega
+  · have hpos' : 0 < v' := lt_of_lt_of_le hpos hv
+    rcases h with ⟨h0, _⟩ | ⟨_, T, d, e, hOk, hval, rfl⟩ | ⟨h0, _⟩
+    · exact absurd h0 (ne_of_gt hpos)
+    swap
+    · exact absurd h0 (not_lt.2 (le_of_lt hpos))
+    rcases h' with ⟨h0, _⟩ | ⟨_, T', d', e', hOk', hval', rfl⟩ | ⟨h0, _⟩
+    · exact absurd h0 (ne_of_gt hpos')
+    swap
+    · exact absurd h0 (not_lt.2 (le_of_lt hpos'))
+    have := rmag_mono_q T d T' d' e e' hOk hOk' (by rw [← hval, ← hval']; exact hv)
+    have := rmag_le_inf T d e
+    have := rmag_le_inf T' d' e'
+    unfold key
+    split <;> split <;> omega
+
+theorem withSign64 (neg : Bool) (x : Nat) :
+    withSign .f64 neg x = (if neg then 9223372036854775808 else 0) + x := by
+  unfold withSign; rw [signBit_f64]; split <;> omega
+
+/-- a signed ratio, rounded -/
+theorem Rnd_ratio (neg : Bool) (T d : Nat) (E : Int) (hOk : Ok T d) :
+    Rnd ((if neg then -1 else 1) * ((T : ℚ) / d * pow2 E)) (withSign .f64 neg (rmag T d E)) := by
+  have hd : (0:ℚ) < d := by exact_mod_cast hOk.1
+  have hT : (0:ℚ) < T := by exact_mod_cast hOk.2.1
+  have hp := pow2_pos E
+  have hpos : 0 < (T : ℚ) / d * pow2 E := by positivity
+  rw [withSign64]
+  cases neg
+  · right; left
+    simp only [Bool.false_eq_true, if_false, one_mul, Nat.zero_add]
+    exact ⟨hpos, T, d, E, hOk, rfl, rfl⟩
+  · right; right
+    simp only [if_true, neg_one_mul, neg_neg]
+    exact ⟨by linarith, T, d, E, hOk, rfl, rfl⟩
+
+theorem Rnd_zero (neg : Bool) : Rnd 0 (withSign .f64 neg 0) := by
+  left; rw [withSign64]; cases neg <;> simp
+
+theorem roundPack_pos (f : Fmt) (neg : Bool) (m : Nat) (e : Int) (hm : m ≠ 0) :
+    roundPack f neg m e = withSign f neg (roundMag f m e) := by
+  have : (m == 0) = false := by simp [hm]
+  simp [roundPack, this]
+
+theorem roundPack_rmag (neg : Bool) (T d : Nat) (E : Int) (hd : 0 < d) (hT : 0 < T) :
+    roundPack .f64 neg (T / d) E (T % d != 0) = withSign .f64 neg (rmag T d E) := by
+  have e1 := Nat.div_add_mod T d
+  unfold roundPack rmag
+  by_cases h0 : T % d = 0
+  · have hq : T / d ≠ 0 := by
+      intro hq; rw [hq, h0] at e1; omega
+    simp [h0, hq]
+  · simp [h0]
+
+/-- an integer times a power of two, rounded (`add`, `mul`, `ofInt`) -/
+theorem Rnd_int (neg : Bool) (n : Nat) (E : Int) (hn : n ≠ 0) :
+    Rnd ((if neg then -1 else 1) * ((n : ℚ) * pow2 E)) (roundPack .f64 neg n E) := by
+  have hOk : Ok n 1 := ⟨by omega, by omega, Or.inl (Nat.mod_one _)⟩
+  have := Rnd_ratio neg n 1 E hOk
+  have e : rmag n 1 E = roundMag .f64 n E := by unfold rmag; simp
+  rw [e] at this
+  rw [roundPack_pos _ _ _ _ hn]
+  simpa using this
+
 end Ivg.FloatOrder
